@@ -105,6 +105,7 @@ def cases(seed, tier):
         base["script"].append({"do": "install_suspender", "sus": "s0"})
     base["script"].append({"do": "call", "plan": body, "main": True})
     base["script"].append({"do": "call", "plan": [msg(S, "null")], "tag": "followup-null"})
+    retarget = generic.second_suspender(base, ID, seed, sleeps=(0, 0.2))
     try:
         dry, dv, nsteps = generic.dry_run(base)
     except RuntimeError:
@@ -118,7 +119,7 @@ def cases(seed, tier):
         inj = gen.gen_injections(rng, nsteps, kinds=kinds, k=rng.choice([1, 1, 2, 3]))
         for i in inj:
             if i["do"] == "trip":
-                i["args"] = generic.trip_args(rng)
+                i["args"] = retarget(generic.trip_args(rng))
         c["script"][ci]["inject"] = inj
         c["script"][ci]["decisions"] = [{"do": rng.choice(["resume", "resume", "resume", "abort", "stop"])} for _ in range(3)]
         c["script"][ci]["settle"] = "idle"
